@@ -324,9 +324,10 @@ func wantRendering(sp *evSpec, vals []string) (s string, unmapped []string) {
 
 const markerBase = 2000
 
-func markerValue(e, t int) *big.Int {
+// marker values: k = e*32+t for the end marker of (endpoint e, type t), 1000+e*32+t for its start marker
+func markerValue(k int) *big.Int {
 	v := new(big.Int).Lsh(big.NewInt(1), 256)
-	return v.Sub(v, big.NewInt(int64(markerBase-(e*32+t))))
+	return v.Sub(v, big.NewInt(int64(markerBase-k)))
 }
 
 // isMarker: delivered node event whose first *big.Int field is in the reserved range
@@ -345,6 +346,9 @@ func isMarker(ev interface{}) (bool, int, int) {
 			d := new(big.Int).Sub(top, b)
 			if d.Cmp(big.NewInt(2)) >= 0 && d.Cmp(big.NewInt(markerBase)) <= 0 {
 				k := markerBase - int(d.Int64())
+				if k >= 1000 {
+					return true, 1000 + (k-1000)/32, (k - 1000) % 32
+				}
 				return true, k / 32, k % 32
 			}
 			return false, 0, 0
@@ -353,14 +357,14 @@ func isMarker(ev interface{}) (bool, int, int) {
 	return false, 0, 0
 }
 
-func markerVals(sp *evSpec, e int) []string {
+func markerVals(sp *evSpec, k int) []string {
 	var vals []string
 	first := true
 	for _, in := range sp.event().Inputs {
 		switch in.Type.String() {
 		case "uint256":
 			if first {
-				vals = append(vals, markerValue(e, sp.idx).String())
+				vals = append(vals, markerValue(k).String())
 				first = false
 			} else {
 				vals = append(vals, "0")
@@ -511,6 +515,14 @@ func execSub(w []string) (res h.Result) {
 		}
 		close(markers)
 	}()
+	emitMarkers := func(e, base int) {
+		for _, t := range typesL {
+			sp := specOf(t)
+			m := &hlog{spec: sp, blockN: 9000000 + uint64(e), tx: int64(1000000 + base + e*32 + t), index: 0}
+			m.data = pack(sp, markerVals(sp, base+e*32+t))
+			st.WS[e].Emit(m.raw(st, false))
+		}
+	}
 	emit := func(e int, items []sitem, dropAt int, end bool) {
 		ep := st.WS[e]
 		for pos, it := range items {
@@ -525,11 +537,28 @@ func execSub(w []string) (res h.Result) {
 			return
 		}
 		if end {
+			emitMarkers(e, 0)
+		}
+	}
+	// phase 0: every subscription is live at the client (its subscribe response has been processed) before
+	// anything is dropped: one start marker per (endpoint, type), all awaited.  (A connection cut while a
+	// subscribe call is still in flight leaves that go-ethereum call waiting for ever: nothing to observe.)
+	{
+		pend := map[[2]int]bool{}
+		for e := 0; e < nws; e++ {
 			for _, t := range typesL {
-				sp := specOf(t)
-				m := &hlog{spec: sp, blockN: 9000000 + uint64(e), tx: int64(1000000 + e*32 + t), index: 0}
-				m.data = pack(sp, markerVals(sp, e))
-				ep.Emit(m.raw(st, false))
+				pend[[2]int{1000 + e, t}] = true
+			}
+			emitMarkers(e, 1000)
+		}
+		to := time.After(60 * time.Second)
+		for len(pend) > 0 {
+			select {
+			case m := <-markers:
+				delete(pend, m)
+			case <-to:
+				res.Impl, res.Oracle = "subscribe-failed", "harness-subscribe-failed: start markers not delivered"
+				return
 			}
 		}
 	}
